@@ -14,10 +14,18 @@ SCENARIOS = ["loop-timers", "halt-wake", "keys", "lcd", "card-ram"]
 
 
 def all_keys():
-    import os
-    import re
-    src = open(os.path.join(common.REPO, "pce500/keyboard_matrix.py")).read()
-    return sorted(set(re.findall(r'"(KEY_[A-Z0-9_]+)"', src)))
+    """Key names of the matrix of the tree under test, asked from a plain interpreter (the parent process must not
+    import the repository natively)."""
+    import json
+    import subprocess
+    import sys
+    try:
+        p = subprocess.run([sys.executable, "-c", "import json, pce500.keyboard_matrix as K; print(json.dumps(sorted(K.KEY_LOCATIONS)))"],
+                           capture_output=True, text=True, timeout=120, env=dict(__import__("os").environ, PYTHONPATH=common.REPO, FORCE_BINJA_MOCK="1"))
+        keys = json.loads(p.stdout.strip().splitlines()[-1])
+        return [k for k in keys if isinstance(k, str)]
+    except Exception:  # noqa: BLE001
+        return []
 
 
 def run(prop, tier):
